@@ -192,3 +192,12 @@ Proof.
     replace (ploidy * Z.of_nat (S (length mat))) with (ploidy + ploidy * Z.of_nat (length mat)) by lia.
     apply map2_add_bounds; [rewrite colsumsZ_len by assumption; lia | assumption | apply IH; assumption].
 Qed.
+
+(** DenseLinearGenomicModel (class tag CL) does not reset neutral alleles: its counts agree with the definitions exactly on
+    non-neutral markers, and differ on neutral ones (finding C04-dlgm-neutral-alleles) *)
+Lemma L_counts_nonneutral (u : Q) (c N : Z) : ~ (u == 0)%Q -> fa1_L u c N = fa1 u c N /\ da1_L u c N = da1 u c N.
+Proof.
+  intros H. unfold fa1, da1, fa1_L, da1_L. destruct (Qeq_bool u 0) eqn:E; [apply Qeq_bool_iff in E; contradiction|]. split; reflexivity.
+Qed.
+Lemma L_counts_neutral_refuted : exists (u : Q) (c N : Z), 0 <= c <= N /\ (u == 0)%Q /\ fa1_L u c N <> fa1 u c N /\ da1_L u c N <> da1 u c N /\ fa1_L u c N + da1_L u c N <> 0.
+Proof. exists 0%Q, 1, 2. repeat split; try lia; try reflexivity; cbn; discriminate. Qed.
